@@ -70,7 +70,7 @@ _TIMEOUTS = [0]
 DISTURB = [[1, {"a": 1}], [2, {"a": [2]}], {"a": [3, [4]]}]
 
 
-def outputs_of(jp, env, q, doc, cap, late_flag=False):
+def outputs_of(jp, env, q, doc, cap, late_flag=False, depth_limit=None):
     from .. import impl  # noqa: PLC0415
 
     if late_flag:
@@ -109,7 +109,8 @@ def outputs_of(jp, env, q, doc, cap, late_flag=False):
             return ("raised", "did not finish within the time limit")
         return res
 
-    results, complete, runs = chooser.explore(jp, one, cap=cap, stop=lambda r: r == ("raised", "did not finish within the time limit"))
+    results, complete, runs = chooser.explore(jp, one, cap=cap, stop=lambda r: r == ("raised", "did not finish within the time limit"),
+                                              depth_limit=depth_limit)
     return results, complete, runs
 
 
@@ -176,6 +177,23 @@ def run(chk: core.Check, tier: str, seed: int) -> None:
                 continue
             recs.append({"op": "nondet", "q": core.enc_text(q), "doc": ed, "complete": complete, "runs": runs,
                          "outputs": [[core.enc_loc(loc) for loc in o] for o in outs]})
+    # WIDE documents: [A, B1 .. Bk] with A = [[0]] and Bi = [i].  The container below A may be visited anywhere after A, so there are
+    # exactly k + 1 permitted results - and every one of them is reached by the FIRST merge alone (where A's child goes among the
+    # queued B's), whatever happens later.  Only that merge is explored (the later choices take their first outcome), which keeps a
+    # queue of 40 and more within reach; TLC computes the permitted set through the container formulation (AllowedResultsC, T8e).
+    for k in ((40,) if tier == "quick" else (40, 64, 100)):
+        d = [[[0]]] + [[i] for i in range(1, k + 1)]
+        ed = core.enc_value(d)
+        for q in ("$..*", "$..[0]"):
+            results, _complete, runs = outputs_of(jp, env, q, d, cap, depth_limit=1)
+            total_runs += runs
+            outs = sorted(set(results), key=repr)
+            if any(o and o[0] == "raised" for o in outs):
+                chk.violation({"clause": "nondeterministic find raised"}, {"query": q, "doc": d, "outputs": [repr(o) for o in outs][:5]})
+                continue
+            recs.append({"op": "nondet", "q": core.enc_text(q), "doc": ed, "complete": True, "wide": True, "runs": runs,
+                         "outputs": [[core.enc_loc(loc) for loc in o] for o in outs]})
+        chk.notes[f"wide_document_k{k}_runs"] = runs
     # the recursion limit counts from the node the descendant segment is applied to, in this mode too:
     # data within the limit below that node must give permitted results, never an error
     for lim, d in [(3, {"a": {"a": {"a": {"b": 1}}}}), (2, [[[1], 2], [[3]]]), (3, {"a": [{"a": [0, {"b": 0}]}], "b": 0}),
